@@ -243,6 +243,7 @@ def run(ctx):
     C02.injectivity(ctx, repo, dis)
     from sa.rules import C02round
     C02round.run(ctx, repo)
+    C02round.data_rule(ctx, repo)
     from sa.rules import memo
     memo.run_for(ctx, repo, 'C01')
     return report.finish(ctx, EXPLANATION)
